@@ -60,6 +60,18 @@ func apiStormBody(variant string) func() {
 					w.WriteShipMessageWithPayload([]byte(`{"datagram":{"n":1}}`))
 				}
 			})
+		case "detail-storm":
+			// the application polls the pairing detail of both sides every millisecond of the handshake
+			// (the pollers are started once the connection and its pumps exist, so that by default a pump handles the
+			// message of a millisecond before the poll of that millisecond: one deviation then puts a poll anywhere
+			// inside the pump's handling)
+			at("spawner", 2500*time.Microsecond, func() {
+				for ms := 3; ms <= 14; ms++ {
+					d := time.Duration(ms)*time.Millisecond - 2500*time.Microsecond
+					at(fmt.Sprintf("detailA%d", ms), d, func() { a.Hub.PairingDetailForSki(b.SKI) })
+					at(fmt.Sprintf("detailB%d", ms), d, func() { b.Hub.PairingDetailForSki(a.SKI) })
+				}
+			})
 		case "close-storm":
 			at("disc", 3*time.Second, func() { a.Hub.DisconnectSKI(b.SKI, "user") })
 			at("discB", 3*time.Second, func() { b.Hub.DisconnectSKI(a.SKI, "user") })
@@ -131,7 +143,7 @@ func c20Scenarios(r *hx.Run) []hx.Scenario {
 		}
 		out = append(out, hx.Scenario{Name: "c20:" + name, Body: withRaces(body), Bounds: simrt.Bounds{Preempt: dd, Fault: 0, Total: dd}, Cfg: cfg})
 	}
-	for _, v := range []string{"during-handshake", "close-storm", "unregister-shutdown", "pending", "mdns-churn", "two-peers"} {
+	for _, v := range []string{"during-handshake", "detail-storm", "close-storm", "unregister-shutdown", "pending", "mdns-churn", "two-peers"} {
 		add("api:"+v, apiStormBody(v))
 	}
 	for _, c := range []string{"disconnectA", "unregisterA", "cutLink", "peerEOF", "shutdownA", "writeAfterPeerClose"} {
